@@ -54,7 +54,7 @@ func checkAccumulator(p *core.Program, r *core.Report, rule string, fd *core.Fun
 			if v, ok := core.ConstString(info, c.Args[0]); ok && v == "false" {
 				if id, ok := as.Lhs[0].(*ast.Ident); ok && acc == nil {
 					cand := info.ObjectOf(id)
-					if unionInLoop(info, fd, cand) {
+					if unionInLoop(p, fd, cand) {
 						acc, accDef = cand, as
 					}
 				}
@@ -68,44 +68,23 @@ func checkAccumulator(p *core.Program, r *core.Report, rule string, fd *core.Fun
 		return
 	}
 	_ = accDef
-	bad := ""
-	// (1) only Union (and read-only operations) on the accumulator; never reassigned
-	ast.Inspect(fd.Decl.Body, func(n ast.Node) bool {
-		switch x := n.(type) {
-		case *ast.AssignStmt:
-			if x == accDef {
-				return true
-			}
-			for _, l := range x.Lhs {
-				if id, ok := ast.Unparen(l).(*ast.Ident); ok && info.ObjectOf(id) == acc && bad == "" {
-					bad = "the accumulator is reassigned at " + p.Pos(x.Pos())
-				}
-			}
-		case *ast.CallExpr:
-			se, ok := ast.Unparen(x.Fun).(*ast.SelectorExpr)
-			if !ok {
-				return true
-			}
-			id, ok := ast.Unparen(se.X).(*ast.Ident)
-			if !ok || info.ObjectOf(id) != acc {
-				return true
-			}
-			fn := core.Callee(info, x)
-			if fn == nil {
-				return true
-			}
-			sig := fn.Type().(*types.Signature)
-			if sig.Results().Len() == 0 && fn.Name() != "Union" && bad == "" {
-				bad = "the accumulator is modified by " + fn.Name() + " at " + p.Pos(x.Pos())
-			}
-		}
-		return true
-	})
+	// (1) only Union (and read-only operations) on the accumulator; never reassigned; a module helper it is handed to
+	// obeys the same discipline on the parameter that receives it
+	_, bad := accumulatorUse(p, fd, acc, accDef, 0)
 	// (2) loop exits: errors, or saturation of the accumulator
 	w := facts.NewWalker(info)
 	accPath := func() string { return w.PathOfVar(acc.(*types.Var)) }
+	satFlags := saturationFlags(p, fd, acc)
 	saturated := func(f facts.Formula) bool {
-		return facts.Entails(f, facts.Atom("b:"+accPath()+".AllowAll")) || facts.Entails(f, facts.Atom("b:"+accPath()+".IsAllConnections()"))
+		if facts.Entails(f, facts.Atom("b:"+accPath()+".AllowAll")) || facts.Entails(f, facts.Atom("b:"+accPath()+".IsAllConnections()")) {
+			return true
+		}
+		for _, v := range satFlags {
+			if facts.Entails(f, facts.Atom("b:"+w.PathOfVar(v))) {
+				return true
+			}
+		}
+		return false
 	}
 	w.OnStmt = func(s ast.Stmt, f facts.Formula) {
 		if len(w.Loops) == 0 || bad != "" {
@@ -129,7 +108,156 @@ func checkAccumulator(p *core.Program, r *core.Report, rule string, fd *core.Fun
 	r.Check(bad == "", rule, c, p.Pos(fd.Decl.Pos()), "only Union modifies the accumulator; early exits are error returns or saturation tests on the accumulator itself", bad)
 }
 
-func unionInLoop(info *types.Info, fd *core.FuncDecl, acc types.Object) bool {
+// accumulatorUse inspects how fd uses the accumulator object acc (a local, or the parameter that receives it in a
+// helper): unions reports a Union with acc as the receiver (directly or in a helper acc is handed to), bad the first
+// use that is not monotone.
+func accumulatorUse(p *core.Program, fd *core.FuncDecl, acc types.Object, accDef *ast.AssignStmt, depth int) (unions bool, bad string) {
+	info := fd.Pkg.TypesInfo
+	ast.Inspect(fd.Decl.Body, func(n ast.Node) bool {
+		switch x := n.(type) {
+		case *ast.AssignStmt:
+			if x == accDef {
+				return true
+			}
+			for _, l := range x.Lhs {
+				if id, ok := ast.Unparen(l).(*ast.Ident); ok && info.ObjectOf(id) == acc && bad == "" {
+					bad = "the accumulator is reassigned at " + p.Pos(x.Pos())
+				}
+				if _, isId := ast.Unparen(l).(*ast.Ident); !isId {
+					if root := core.RootIdent(l); root != nil && info.ObjectOf(root) == acc && bad == "" {
+						bad = "the accumulator is written through at " + p.Pos(x.Pos())
+					}
+				}
+			}
+		case *ast.CallExpr:
+			fn := core.Callee(info, x)
+			if fn == nil {
+				return true
+			}
+			if se, ok := ast.Unparen(x.Fun).(*ast.SelectorExpr); ok {
+				if id, ok := ast.Unparen(se.X).(*ast.Ident); ok && info.ObjectOf(id) == acc {
+					sig := fn.Type().(*types.Signature)
+					if fn.Name() == "Union" {
+						unions = true
+					} else if sig.Results().Len() == 0 && bad == "" {
+						bad = "the accumulator is modified by " + fn.Name() + " at " + p.Pos(x.Pos())
+					}
+					return true
+				}
+			}
+			for i, a := range x.Args {
+				id, ok := ast.Unparen(a).(*ast.Ident)
+				if !ok || info.ObjectOf(id) != acc {
+					continue
+				}
+				callee := p.ByObj[fn]
+				if callee == nil || depth >= 2 {
+					continue // not a module function with a body (printing, comparing ...)
+				}
+				sig := fn.Type().(*types.Signature)
+				if i >= sig.Params().Len() {
+					continue
+				}
+				u, b := accumulatorUse(p, callee, sig.Params().At(i), nil, depth+1)
+				unions = unions || u
+				if b != "" && bad == "" {
+					bad = "handed to " + core.FuncKey(fn) + " where " + b
+				}
+			}
+		}
+		return true
+	})
+	return unions, bad
+}
+
+// saturationFlags: boolean locals `v, .. := helper(.., acc, ..)` where every return of the module helper gives, at that
+// result position, either the constant false or the saturation test of the parameter that receives the accumulator.
+func saturationFlags(p *core.Program, fd *core.FuncDecl, acc types.Object) []*types.Var {
+	info := fd.Pkg.TypesInfo
+	var out []*types.Var
+	ast.Inspect(fd.Decl.Body, func(n ast.Node) bool {
+		as, ok := n.(*ast.AssignStmt)
+		if !ok || len(as.Rhs) != 1 {
+			return true
+		}
+		call, ok := ast.Unparen(as.Rhs[0]).(*ast.CallExpr)
+		if !ok {
+			return true
+		}
+		fn := core.Callee(info, call)
+		callee := p.ByObj[fn]
+		if callee == nil {
+			return true
+		}
+		sig := fn.Type().(*types.Signature)
+		var param *types.Var
+		for i, a := range call.Args {
+			if id, isId := ast.Unparen(a).(*ast.Ident); isId && info.ObjectOf(id) == acc && i < sig.Params().Len() {
+				param = sig.Params().At(i)
+			}
+		}
+		if param == nil {
+			return true
+		}
+		cinfo := callee.Pkg.TypesInfo
+		for ri, l := range as.Lhs {
+			id, isId := ast.Unparen(l).(*ast.Ident)
+			if !isId || ri >= sig.Results().Len() {
+				continue
+			}
+			v, isV := info.ObjectOf(id).(*types.Var)
+			if !isV {
+				continue
+			}
+			if b, isB := v.Type().Underlying().(*types.Basic); !isB || b.Info()&types.IsBoolean == 0 {
+				continue
+			}
+			ok := true
+			nret := 0
+			ast.Inspect(callee.Decl.Body, func(m ast.Node) bool {
+				if _, isLit := m.(*ast.FuncLit); isLit {
+					return false
+				}
+				ret, isRet := m.(*ast.ReturnStmt)
+				if !isRet {
+					return true
+				}
+				nret++
+				if len(ret.Results) != sig.Results().Len() {
+					ok = false
+					return true
+				}
+				e := ast.Unparen(ret.Results[ri])
+				if cid, isC := e.(*ast.Ident); isC && cid.Name == "false" {
+					return true
+				}
+				var x ast.Expr
+				switch y := e.(type) {
+				case *ast.SelectorExpr:
+					if y.Sel.Name == "AllowAll" {
+						x = y.X
+					}
+				case *ast.CallExpr:
+					if se, isSe := ast.Unparen(y.Fun).(*ast.SelectorExpr); isSe && se.Sel.Name == "IsAllConnections" && len(y.Args) == 0 {
+						x = se.X
+					}
+				}
+				if xid, isX := x.(*ast.Ident); !isX || cinfo.ObjectOf(xid) != types.Object(param) {
+					ok = false
+				}
+				return true
+			})
+			if ok && nret > 0 {
+				out = append(out, v)
+			}
+		}
+		return true
+	})
+	return out
+}
+
+func unionInLoop(p *core.Program, fd *core.FuncDecl, acc types.Object) bool {
+	info := fd.Pkg.TypesInfo
 	found := false
 	var visit func(n ast.Node, inLoop bool)
 	visit = func(n ast.Node, inLoop bool) {
@@ -146,10 +274,27 @@ func unionInLoop(info *types.Info, fd *core.FuncDecl, acc types.Object) bool {
 					return false
 				}
 			case *ast.CallExpr:
-				if inLoop {
-					if se, ok := ast.Unparen(x.Fun).(*ast.SelectorExpr); ok && se.Sel.Name == "Union" {
-						if id, ok := ast.Unparen(se.X).(*ast.Ident); ok && info.ObjectOf(id) == acc {
-							found = true
+				if !inLoop {
+					return true
+				}
+				fn := core.Callee(info, x)
+				if fn == nil {
+					return true
+				}
+				if se, ok := ast.Unparen(x.Fun).(*ast.SelectorExpr); ok && fn.Name() == "Union" {
+					if id, ok := ast.Unparen(se.X).(*ast.Ident); ok && info.ObjectOf(id) == acc {
+						found = true
+					}
+				}
+				for i, a := range x.Args {
+					if id, ok := ast.Unparen(a).(*ast.Ident); ok && info.ObjectOf(id) == acc {
+						if callee := p.ByObj[fn]; callee != nil {
+							sig := fn.Type().(*types.Signature)
+							if i < sig.Params().Len() {
+								if u, _ := accumulatorUse(p, callee, sig.Params().At(i), nil, 1); u {
+									found = true
+								}
+							}
 						}
 					}
 				}
